@@ -142,7 +142,8 @@ def evaluate(i, scn):
             ck.m(why is None, "C02", "C02_RoundTrip", f"components are not attached to the input's feature labels (projection != scores): {why}")
         except Exception as e:  # noqa
             ck.d(False, "C02", "C02_RoundTrip", f"EOF on this layout raised {type(e).__name__}: {str(e)[:200]}")
-    return dict(found=ck.found, P=ck.P, D=ck.D, M=ck.M, count={lay["kind"]: 1})
+    return dict(found=ck.found, P=ck.P, D=ck.D, M=ck.M, count={lay["kind"]: 1},
+                ctx=dict(stacked_or_multi=bool(lay["ns"] >= 2 or lay["ik"]["s1"] == "multi")))
 
 
 def main():
